@@ -515,6 +515,17 @@ func c07ShippedSessions(c *run.Ctx, r *rand.Rand, id string, k c07cfg, ov *fosit
 		s.ClientCredentials(cl, []string{"fosite"}, nil)
 	}
 	s.Sweep("minted")
+	// every planned refresh token is presented once in a request that is given up between the two phases of the token endpoint
+	// (the caller hung up, a later handler failed): the token stays unused and keeps the expiry it was issued with
+	s.Advance(7 * time.Second)
+	w.Abandon = func(fosite.AccessRequester) bool { return true }
+	for _, p := range plan {
+		cl := p.t.Grant.Client
+		w.Token(url.Values{"grant_type": {"refresh_token"}, "refresh_token": {p.t.Value}}, world.Basic(cl, w.Specs[cl].Secret))
+		c.Count("c07_abandoned_refreshes", 1)
+	}
+	w.Abandon = nil
+	s.Sweep("abandoned-refresh")
 	done := map[*sim.Tok]bool{}
 	for steps := 0; steps < 300; steps++ {
 		now := time.Now()
